@@ -164,7 +164,11 @@ def make(case):
             kw = {n: kwa[n] for i, n in enumerate(names) if i > skip}
         if len(pos) == 1 and A[2][0][1][0] in ("char", "arr", "wchar"):
             return  # T(x) with a single bytes-like/stream argument is the documented parsing form, not construction
-        c = cA(*pos, **kw) if (pos or kw) else cA()
+        try:
+            c = cA(*pos, **kw) if (pos or kw) else cA()
+        except Exception as e:  # noqa: BLE001
+            ctx.check("constructing from positional and keyword values works", False, H.classify(e) + f" npos={len(pos)}")
+            return
         d = cA()
         given = set(names[:len(pos)]) | set(kw)
         for n in names:
@@ -207,6 +211,37 @@ def make_anon(case):
             t = bool(a)
             ctx.observe("bool", t)
             ctx.check("falsy exactly when all fields (those of anonymous members included) are falsy", truthy if t else R.Not(truthy))
+    return run
+
+
+def make_union_eq(case):
+    """Unions are equal exactly when their fields are: bytes that belong to no member take no part."""
+    cfg = case["cfg"]
+    T = ["union", "test", [["a", G.U32, None], ["c", G.arr(G.CHAR, 5), None]], False]      # aligned: 3 bytes of tail padding
+    Tw = ["struct", "wrap", [["h", G.U8, None], ["u", ["union", "pu", [["s", G.INNER2, None], ["k", G.U16, None]], False], None]], False]
+    cs, cls = H.load(T, dict(cfg, compiled=False))
+    cs2, wcls = H.load(Tw, dict(cfg, compiled=False))
+    L = H.layout(cfg)
+    size = L.size_align(T)[0]
+    wsize = L.size_align(Tw)[0]
+
+    def run(ctx):
+        x, y = ctx.bytes("x", size), ctx.bytes("y", size)
+        u1, u2 = cls.read(ctx.stream(x)), cls.read(ctx.stream(y))
+        fields_eq = R.And(*[x[i] == y[i] for i in range(5)])
+        eq = (u1 == u2)
+        ctx.observe("eq", eq)
+        ctx.check("unions are equal exactly when all their fields are equal (uncovered bytes do not count)", fields_eq if eq else R.Not(fields_eq))
+        ctx.check("a union equals itself parsed again", (cls.read(ctx.stream(x)) == u1) is True)
+        ctx.check("a union never equals an instance of another union type", (u1 == wcls.__fields__[1].type.read(ctx.stream(x + x))) is False)
+        p, q = ctx.bytes("p", wsize), ctx.bytes("q", wsize)
+        w1, w2 = wcls.read(ctx.stream(p)), wcls.read(ctx.stream(q))
+        rp, rq = H.ref_parser(ctx, cfg), H.ref_parser(ctx, cfg)
+        rv1, _ = rp.parse(Tw, p, 0)
+        rv2, _ = rq.parse(Tw, q, 0)
+        same = R.And(rv1["h"] == rv2["h"], rv1["u"]["s"]["p"] == rv2["u"]["s"]["p"], rv1["u"]["s"]["q"] == rv2["u"]["s"]["q"])
+        weq = (w1 == w2)
+        ctx.check("structures holding a union: equal exactly when all fields are equal", same if weq else R.Not(same))
     return run
 
 
@@ -387,3 +422,4 @@ def cases(tier, seed):
         yield {"label": "assign str to char array", "T": ["struct", "test", ASSIGN_DEFS[0][1], False], "cfg": cfg, "make": "make_assign", "strchar": True}
         for part in ("eq", "bool"):
             yield {"label": f"anonymous member {part}", "cfg": cfg, "part": part, "make": "make_anon"}
+        yield {"label": "union equality", "cfg": cfg, "make": "make_union_eq"}
